@@ -312,6 +312,8 @@ struct PeerRt<I: HInp, P: InputPredictor<I> + 'static> {
     use_wait: bool,
     drain: bool,
     half: usize,
+    neighbours: Vec<Addr>,
+    synced_all: bool,
 }
 
 struct SpecRt<I: HInp, P: InputPredictor<I> + 'static> {
@@ -555,6 +557,18 @@ fn forge(net: &Net, to: Addr, from: Addr, kind: u8, a: i32, b: i32, bytes: &[u8]
                 false
             }
         }
+        // another session's handshake traffic from the peer's address (e.g. the peer crashed and
+        // restarted): foreign magic, its own nonce
+        10 | 11 => {
+            let Some(t) = tany else { return false };
+            let mut magic = t.header.magic.wrapping_add(a.max(1) as u16);
+            if magic == 0 {
+                magic = 1;
+            }
+            let nonce = 0x0bad_0000u32 ^ (b as u32).wrapping_mul(2654435761);
+            let body = if kind == 10 { MBody::SyncRequest { random_request: nonce } } else { MBody::SyncReply { random_reply: nonce } };
+            push(MMessage { header: MHeader { magic }, body })
+        }
         _ => false,
     }
 }
@@ -638,6 +652,8 @@ pub fn run_typed<I: HInp, P: InputPredictor<I> + 'static>(sc: &Scenario, opts: &
             use_wait: sc.peers[p].use_wait,
             drain: sc.drain,
             half: 0,
+            neighbours: crate::gen::neighbours(sc, peer_addr(p)),
+            synced_all: false,
         });
     }
     let mut specs: Vec<SpecRt<I, P>> = Vec::new();
@@ -1183,6 +1199,16 @@ fn tick_peer<I: HInp, P: InputPredictor<I> + 'static>(
             for (t, e) in &pe.out.events[ev_before..] {
                 if let Ev::Wait { skip } = e {
                     pe.out.wait_recs.push((*t, *skip, fa_now, cur));
+                }
+            }
+            // C12: advance_frame may only succeed once every remote completed the handshake
+            if sc.drain && !pe.synced_all {
+                let ok = pe.neighbours.iter().all(|a| pe.out.events.iter().any(|e| matches!(e.1, Ev::Synchronized { addr } if addr == *a)));
+                if ok {
+                    pe.synced_all = true;
+                } else {
+                    viols.push(Viol { prop: "C12", clause: "C12.advanced_before_synchronized".into(), msg: format!("advance_frame() succeeded although not every remote address of {:?} has produced Synchronized yet", pe.neighbours), node: node.clone(), tick });
+                    pe.synced_all = true;
                 }
             }
         }
